@@ -63,6 +63,11 @@ class Budget(BaseException):
     pass
 
 
+class Outside(BaseException):
+    """the run left the stated bounds of the obligation (e.g. a loop deeper than the unrolled depth): the path is recorded as
+    outside the claim, it is neither a pass nor a failure of what is claimed"""
+
+
 class StubMiss(BaseException):
     """a contract stub was called on something it cannot answer for (inconclusive path)"""
 
@@ -1042,6 +1047,7 @@ class Ctx:
         self.uf_apps = []      # (name, args tuple z3, result atom) for reporting
         self.stub_log = []
         self.lemmas = []
+        self.uf_defs = set()
         self.div_info = {}
         self.memo = {}         # structural hash-consing of definitional atoms (per path)
 
@@ -1196,8 +1202,19 @@ class Ctx:
 
     def _def_sqrt(self, s: Sym) -> Sym:
         nn = _cmp0(s.re, "ge")
-        if not bool(nn):
-            raise StubMiss("sqrt of a term that is negative on this path")
+        if nn.k == "const":
+            if not nn.a:
+                raise StubMiss("sqrt of a negative constant")
+        elif self.active and self.feas is not None:
+            can_neg = self._check(z3.Not(nn.z3()))
+            if can_neg:
+                if s.re.degree() >= 2:
+                    # typically a sum of squares whose non-negativity is invisible to the linear relaxation: state it as a
+                    # lemma (proved by the exact solver before it is used) instead of splitting the path
+                    self.lemmas.append(nn)
+                    self.feas.add(nn.z3())
+                elif not bool(nn):
+                    raise StubMiss("sqrt of a term that is negative on this path")
 
         def ev(env, p=s.re):
             return math.sqrt(float(p.eval(env)))
@@ -1254,6 +1271,7 @@ class Ctx:
             return r if index is None else r[index]
         a = self.fresh("uf_" + fname, ev=ev)
         self.add_def(a.z3v == f(*zargs))
+        self.uf_defs.add(len(self.defs) - 1)
         self.uf_apps.append((fname, len(zargs)))
         return Sym(Poly.atom(a))
 
@@ -1371,7 +1389,7 @@ def div_atoms():
 
 
 class PathResult:
-    __slots__ = ("trace", "pc", "defs", "monos", "kind", "value", "stub_log", "uf_apps", "ndef", "lemmas")
+    __slots__ = ("trace", "pc", "defs", "monos", "kind", "value", "stub_log", "uf_apps", "ndef", "lemmas", "uf_defs")
 
     def __init__(self, ctx: Ctx, kind, value):
         self.trace = list(ctx.trace)
@@ -1384,6 +1402,7 @@ class PathResult:
         self.uf_apps = list(ctx.uf_apps)
         self.ndef = ctx.ndef
         self.lemmas = list(ctx.lemmas)
+        self.uf_defs = set(ctx.uf_defs)
 
 
 def mono_facts(monos):
@@ -1465,6 +1484,8 @@ def explore(fn, assume=(), max_paths=2000, time_budget=120.0, on_path=None):
             complete = False
             info["budget"] = str(e)
             r = PathResult(ctx, "budget", e)
+        except Outside as e:
+            r = PathResult(ctx, "outside", e)
         except StubMiss as e:
             r = PathResult(ctx, "stubmiss", e)
         except Exception as e:  # the code under analysis raised
